@@ -574,6 +574,12 @@ class Engine:
 
     def binop(self, op, a, b, fr, path, node=None):
         if isinstance(op, ast.Add):
+            if isinstance(a, (CharV, RunStr)) and isinstance(b, (CharV, RunStr)):
+                x, y = as_run(a), as_run(b)
+                ones = z3.And(zterm(x.n) == 1, zterm(y.n) == 1)
+                if not path.implied(ones) and path.branch(z3.Not(ones), "run-concat"):
+                    raise Limitation("concatenation of runs longer than one character")
+                return RunStr(x.lo, y.lo, 2)        # two one-character strings: the two-character string lo + hi
             if is_strv(a) and is_strv(b):
                 return mkstr(a, b)
             if is_numv(a) and is_numv(b):
@@ -922,6 +928,17 @@ class Engine:
             if is_sym(idx):
                 raise Limitation("symbolic index into a pair")
             return base.items[idx]
+        if isinstance(base, (RunStr, CharV)) and isinstance(idx, int):
+            r = as_run(base)
+            if idx in (0, -1):
+                return r.lo if idx == 0 else r.hi
+            if idx in (1, -2):
+                two = zterm(r.n) == 2
+                if not path.implied(two):
+                    if path.branch(z3.Not(two), "run-index"):
+                        raise RaiseExc("IndexError", implicit=True, info="string index out of range")
+                return r.hi if idx == 1 else r.lo
+            raise RaiseExc("IndexError", implicit=True, info="string index out of range")
         if isinstance(base, SStr):
             # s[i]: the one-character string at position i (IndexError outside 0 <= i < len, after python's wrap-around)
             t = base.term()
@@ -1118,6 +1135,13 @@ class Engine:
                 fr.env[node.func.value.id] = new
                 return val
             fr.env[node.func.value.id] = lst.append(self, path, a[0])
+            return None
+        if isinstance(node.func, ast.Attribute) and isinstance(node.func.value, ast.Name) and node.func.value.id in fr.env \
+                and isinstance(fr.env[node.func.value.id], SymSet) and isinstance(fr.env[node.func.value.id].seq, MapList) \
+                and node.func.attr == "add":
+            st = fr.env[node.func.value.id]
+            a = [self.ev(x, fr, path) for x in node.args]
+            fr.env[node.func.value.id] = SymSet(st.seq.append(self, path, a[0]))      # a set as a list in arbitrary order (E7)
             return None
         f = self.ev(node.func, fr, path)
         args, kwargs = [], {}
@@ -1430,7 +1454,7 @@ class Engine:
             if n == "bool":
                 return is_boolv(v)
             if n == "str":
-                return is_strv(v) or isinstance(v, CharV)
+                return is_strv(v) or isinstance(v, (CharV, RunStr))
             if n == "float":
                 return is_realv(v)
             if n == "list":
@@ -1484,6 +1508,8 @@ class Engine:
             return v.length
         if isinstance(v, CharV):
             return 1
+        if isinstance(v, RunStr):
+            return v.n
         if isinstance(v, CharPair):
             return 2
         raise RaiseExc("TypeError", implicit=True, info=f"len() of {kind_of(v)}")
@@ -1519,7 +1545,11 @@ class Engine:
         if isinstance(v, AbsSet):
             c = self.contracts.get(getattr(fr.func, "qualname", None)) or {}
             if c.get("enumerate_sets"):
-                return v.materialise(self, path)     # the function indexes / pops the list: some enumeration of the set
+                self.enumerate_chars_as_runs = c.get("enumerate_sets") == "runs"
+                try:
+                    return v.materialise(self, path)     # the function indexes / pops the list: some enumeration of the set
+                finally:
+                    self.enumerate_chars_as_runs = False
             return v            # the order of a set's elements is arbitrary; only the denotation is tracked
         raise Limitation(f"list({v!r})")
 
@@ -1583,6 +1613,11 @@ class Engine:
         (v,) = args
         if isinstance(v, CharV):
             return v.code
+        if isinstance(v, RunStr):
+            one = zterm(v.n) == 1
+            if not path.implied(one) and path.branch(z3.Not(one), "ord-len"):
+                raise RaiseExc("TypeError", implicit=True, info="ord() of a string of length 2")
+            return v.lo.code
         if isinstance(v, str):
             if len(v) != 1:
                 raise RaiseExc("TypeError", implicit=True, info=f"ord() of a string of length {len(v)}")
@@ -2041,6 +2076,29 @@ class CharV:
         return f"<Char {self.code}>"
 
 
+class RunStr:
+    """a string of one character (n == 1, lo == hi) or of two characters lo + hi (n == 2): the items __chars_to_ranges keeps
+    in its work list - a single character, or the first and last character of a run of adjacent characters"""
+
+    def __init__(self, lo, hi, n):
+        self.lo, self.hi, self.n = lo, hi, n
+
+    @property
+    def code(self):
+        return self.lo.code         # as a character (meaningful when n == 1)
+
+    def __repr__(self):
+        return f"<Run {self.lo.code}..{self.hi.code} n={self.n}>"
+
+
+def as_run(v):
+    if isinstance(v, RunStr):
+        return v
+    if isinstance(v, CharV):
+        return RunStr(v, v, 1)
+    return None
+
+
 class CharPair:
     """a 2-element list/tuple of characters (a range)"""
 
@@ -2099,9 +2157,16 @@ class AbsSet:
             raise Limitation(f"enumeration of an abstract set of kind {self.kind}")
         n = eng.fresh("enum_len", IntS)
         path.assume(n >= 0)
-        L = fresh_maplist(eng, "enum", {"range": "rangestr", "pair": "pair", "char": "char"}[self.kind], n)
+        as_runs = self.kind == "char" and getattr(eng, "enumerate_chars_as_runs", False)
+        L = fresh_maplist(eng, "enum", "run" if as_runs else {"range": "rangestr", "pair": "pair", "char": "char"}[self.kind], n)
         sb = eng.spec_builtins
-        if self.kind == "char":
+        if as_runs:
+            # single characters, held in a list whose items may later become two-character runs
+            k = z3.Int("k!enumrun")
+            path.assume(sb["WFRUN"](eng, path, L))
+            path.assume(z3.ForAll([k], z3.Implies(z3.And(k >= 0, k < n), zterm(L.getter(k).n) == 1)))
+            v = sb["RUNV"](eng, path, L)
+        elif self.kind == "char":
             path.assume(sb["WFC"](eng, path, L))
             v = sb["CV"](eng, path, L)
         else:
@@ -2188,6 +2253,8 @@ PY_BUILTINS = {"isinstance", "issubclass", "len", "str", "int", "bool", "float",
 def elem_kind_of(v):
     if isinstance(v, CharV):
         return "char"
+    if isinstance(v, RunStr):
+        return "run"
     if isinstance(v, CharPair) or (isinstance(v, (tuple, list)) and len(v) == 2 and all(isinstance(x, CharV) for x in v)):
         return "pair"
     try:
@@ -2229,7 +2296,7 @@ def kind_of(v):
         return "int"
     if is_realv(v):
         return "float"
-    if is_strv(v) or isinstance(v, CharV):
+    if is_strv(v) or isinstance(v, (CharV, RunStr)):
         return "str"
     if isinstance(v, Obj):
         return v.kind
@@ -2264,6 +2331,10 @@ def merge_values(c, a, b):
         return tuple(merge_values(c, x, y) for x, y in zip(a, b))
     if isinstance(a, CharV) and isinstance(b, CharV):
         return CharV(z3.If(c, zterm(a.code), zterm(b.code)))
+    if (isinstance(a, RunStr) or isinstance(b, RunStr)) and as_run(a) is not None and as_run(b) is not None:
+        x, y = as_run(a), as_run(b)
+        return RunStr(CharV(z3.If(c, zterm(x.lo.code), zterm(y.lo.code))), CharV(z3.If(c, zterm(x.hi.code), zterm(y.hi.code))),
+                      z3.If(c, zterm(x.n), zterm(y.n)))
     if isinstance(a, (CharPair, tuple, list)) and isinstance(b, (CharPair, tuple, list)):
         try:
             a1, a2 = as_pair(a)
